@@ -30,6 +30,8 @@ RULES = {
     "C20-d": "except classes resolve; raised classes resolve to LenaException subclasses / re-raises / named exceptions",
     "C20-e": "string-named members (call=/run=/fill= ... given as string constants next to a statically known object) exist",
     "C20-f": "no store into another module's namespace at import time; globals()[...] stores only in the named site",
+    "C20-g": "definite assignment: on no enumerated path of any function is a local read before something on that path has bound it "
+             "(UnboundLocalError is a NameError); five triaged sites excepted by name, each with its reason",
 }
 ASSUMPTIONS = [
     "third-party modules (jinja2, numpy, ROOT, ...) are importable where lena imports them; their attributes are not resolved",
@@ -158,6 +160,52 @@ def check_all(ctx):
                       detail="%s.__all__: %s bound" % (name, nm), construct="__all__:%s" % nm)
     ctx.instances_floor("C20-a", n_lists, 7, "__all__ lists")
     ctx.note("all_names", n_names)
+    # optional dependencies: a module that imports names inside `try: ... except ImportError: <fallback>` is meant to be
+    # importable without the dependency; every name it exports must then be bound by the fallback too
+    n_opt = 0
+    for name in sorted(ctx.tree.modules):
+        mod = ctx.tree.modules[name]
+        allv = res.dunder_all(name)
+        if allv is None:
+            continue
+        exported = {nm: node for nm, node in allv}
+        for st in mod.tree.body:
+            if not isinstance(st, ast.Try):
+                continue
+            hs = [h for h in st.handlers if h.type is not None and any(
+                res.canon(t) in ("builtins.ImportError", "builtins.ModuleNotFoundError", "builtins.Exception")
+                for t in (h.type.elts if isinstance(h.type, ast.Tuple) else [h.type]))]
+            if not hs:
+                continue
+
+            def binds(stmts):
+                out = set()
+                for x in stmts:
+                    for n in ast.walk(x):
+                        if isinstance(n, (ast.Import, ast.ImportFrom)):
+                            out.update((al.asname or al.name).split(".")[0] for al in n.names)
+                        elif isinstance(n, ast.Name) and isinstance(n.ctx, ast.Store):
+                            out.add(n.id)
+                        elif isinstance(n, (ast.FunctionDef, ast.ClassDef)):
+                            out.add(n.name)
+                return out
+            tried = binds(st.body)
+            # names bound elsewhere at module level (before or after) do not depend on the try
+            elsewhere = set()
+            for other in mod.tree.body:
+                if other is not st:
+                    elsewhere |= binds([other]) if not isinstance(other, (ast.FunctionDef, ast.ClassDef)) else {other.name}
+            for h in hs:
+                if any(isinstance(x, ast.Raise) for x in ast.walk(ast.Module(body=h.body, type_ignores=[]))) and not binds(h.body):
+                    continue        # the module simply does not import without the dependency
+                fb = binds(h.body)
+                for nm in sorted(tried & set(exported)):
+                    n_opt += 1
+                    ctx.check("C20-a", nm in fb or nm in elsewhere, exported[nm], "%s.__all__ exports %r, which is bound only by the import "
+                              "inside `try:`; the `except %s` fallback (taken when the optional dependency is missing) does not bind "
+                              "it, so `from %s import *` raises AttributeError there" % (name, nm, A.src(h.type), name),
+                              detail="%s: exported %s also bound by the ImportError fallback" % (name, nm), construct="__all__-fallback:%s" % nm)
+    ctx.instances_floor("C20-a/optional", n_opt, 1, "exported names bound under try/except ImportError")
 
 
 def check_globals(ctx):
@@ -522,8 +570,137 @@ def check_foreign_stores(ctx):
     ctx.ok("C20-f", ("lena", "<all>"), "no store into a foreign module namespace")
 
 
+# (module, function) -> (number of locals concerned, why the reported paths cannot be taken).  Confirmed by reading the code.
+# Keyed by function, not by the local's name (a renaming must not turn an excepted site into an alarm); a function that
+# shows MORE possibly-unbound locals than listed here is reported.
+UNBOUND_EXEMPT = {
+    ("lena.core.source", "Source.__call__"): (1,
+        "`flow`: the path needs a first element that is neither callable nor iterable, which Source.__init__ rejects (C01-b checks that guard)"),
+    ("lena.output.to_csv", "hist2d_to_csv"): (2,
+        "`x_ind`, `bin_content`: read after the loops over the bins only when duplicate_last_bin is set; the loops run at least once "
+        "because histogram edges have at least two points (check_edges_increasing, C06-d)"),
+    ("lena.output.write_root_tree", "WriteROOTTree.run"): (1,
+        "`root_file`: self._root_file is a ROOT.TFile, a str or a tuple; WriteROOTTree.__init__ raises LenaTypeError for anything else"),
+    ("lena.structures.graph", "graph._parse_error_names"): (1,
+        "`err_tail`: assigned in the same block that appends to err_coords, and read only when err_coords holds exactly one item"),
+}
+
+
+def _local_names(fn):
+    params = set(A.func_params(fn))
+    stores, banned = set(), set()
+    for n in A.walk_local(fn, include_self=False):
+        if isinstance(n, (ast.Global, ast.Nonlocal)):
+            banned.update(n.names)
+        elif isinstance(n, ast.Name) and isinstance(n.ctx, (ast.Store, ast.Del)):
+            stores.add(n.id)
+        elif isinstance(n, (ast.FunctionDef, ast.ClassDef, ast.AsyncFunctionDef)):
+            stores.add(n.name)
+        elif isinstance(n, ast.ExceptHandler) and n.name:
+            stores.add(n.name)
+        elif isinstance(n, (ast.Import, ast.ImportFrom)):
+            for al in n.names:
+                stores.add((al.asname or al.name).split(".")[0])
+    # names bound only as comprehension / lambda targets are not function locals
+    return stores - params - banned, params
+
+
+def check_definite_assignment(ctx):
+    from .. import paths as P
+    from ..loader import AnalysisError
+    n_fn = n_reads = 0
+    exempt_seen = set()
+    for mod, fn in ctx.tree.functions():
+        if isinstance(fn, ast.Lambda):
+            continue
+        locs, params = _local_names(fn)
+        if not locs:
+            continue
+        try:
+            ps = P.paths_of(fn)
+        except AnalysisError as err:
+            ctx.unknown("C20-g", fn, "paths of %s not enumerated: %s" % (A.qualname(fn), err))
+            continue
+        n_fn += 1
+        reported = set()
+        pending = []
+        for p in ps:
+            bound = set(params)
+            for e in p.ev:
+                k = e[0]
+                if k == "def":
+                    bound.add(e[1].name)
+                    continue
+                if k == "exc":
+                    if e[1].name:
+                        bound.add(e[1].name)
+                    continue
+                if k in ("stmt", "partial", "cond"):
+                    nodes = [e[1]]
+                elif k in ("iter", "loop0") and isinstance(e[1], (ast.For, ast.AsyncFor)):
+                    nodes = [e[1].iter]
+                elif k == "with":
+                    nodes = [it.context_expr for it in e[1].items]
+                else:
+                    nodes = []
+                for nd in nodes:
+                    inner = set()
+                    for x in ast.walk(nd):
+                        if isinstance(x, (ast.ListComp, ast.SetComp, ast.DictComp, ast.GeneratorExp)):
+                            for g in x.generators:
+                                inner.update(A.target_names(g.target))
+                        elif isinstance(x, ast.Lambda):
+                            inner.update(A.func_params(x))
+                    if k != "partial":
+                        for x in A.walk_local(nd):
+                            if isinstance(x, ast.Name) and isinstance(x.ctx, ast.Load) and x.id in locs:
+                                n_reads += 1
+                                if x.id in bound or x.id in inner:
+                                    continue
+                                key = (mod.name, A.qualname(fn), x.id)
+                                if key in reported:
+                                    continue
+                                reported.add(key)
+                                pending.append((x, p))
+                    for x in A.walk_local(nd):
+                        if isinstance(x, ast.Name) and isinstance(x.ctx, ast.Store):
+                            bound.add(x.id)
+                        elif isinstance(x, (ast.Import, ast.ImportFrom)):
+                            for al in x.names:
+                                bound.add((al.asname or al.name).split(".")[0])
+                        elif isinstance(x, ast.Delete):
+                            for t in x.targets:
+                                if isinstance(t, ast.Name):
+                                    bound.discard(t.id)
+                if k == "iter" and isinstance(e[1], (ast.For, ast.AsyncFor)):
+                    bound.update(A.target_names(e[1].target))
+                elif k == "with":
+                    for it in e[1].items:
+                        if it.optional_vars is not None:
+                            bound.update(A.target_names(it.optional_vars))
+        fkey = (mod.name, A.qualname(fn))
+        allowed, reason = UNBOUND_EXEMPT.get(fkey, (0, ""))
+        if pending and len(pending) <= allowed:
+            exempt_seen.add(fkey)
+            ctx.ok("C20-g", fn, "%s: %d local(s) read before assignment only on excluded paths (%s)" % (A.qualname(fn), len(pending), reason),
+                   nontrivial=False)
+        elif pending:
+            for x, p in pending:
+                ctx.violation("C20-g", x, "the local `%s` of %s is read on the path [%s] before anything on that path has bound it: "
+                              "UnboundLocalError (a NameError) instead of the documented behaviour%s" % (
+                                  x.id, A.qualname(fn), p.describe(4),
+                                  " (this function has %d triaged site(s) of this kind, now %d)" % (allowed, len(pending)) if allowed else ""),
+                              construct="unbound-local:%s#%d" % (A.qualname(fn), len(pending)), path=p)
+        else:
+            ctx.ok("C20-g", fn, "%s: every local is bound before it is read on all %d paths" % (A.qualname(fn), len(ps)))
+    ctx.instances_floor("C20-g", n_fn, 200, "functions with locals whose paths were enumerated")
+    ctx.note("definite_assignment", {"functions": n_fn, "local_reads_checked": n_reads,
+                                     "exempt_sites_present": sorted("%s:%s" % k2 for k2 in exempt_seen)})
+
+
 def check(ctx):
     check_all(ctx)
+    check_definite_assignment(ctx)
     check_globals(ctx)
     check_imports(ctx)
     check_exceptions(ctx)
@@ -532,6 +709,9 @@ def check(ctx):
 
 
 VARIANTS = [
+    M("all-exports-try-only-name", "lena/output/__init__.py", "    'iterable_to_table', 'ToCSV', 'hist1d_to_csv', 'hist2d_to_csv',\n    'RenderLaTeX'\n]", "    'iterable_to_table', 'ToCSV', 'hist1d_to_csv', 'hist2d_to_csv',\n    'jinja_syntax_latex',\n]", ["C20-a"]),
+    M("slice-before-guard", "lena/core/fill_compute_seq.py", "        if fc_el is None:", "        after_probe = seq[ind+1:]\n        if fc_el is None:", ["C20-g"]),
+    M("name-bound-in-one-branch", "lena/flow/elements.py", "        self.count += 1\n        data, context = lena.flow.get_data_context(value)", "        self.count += 1\n        if self.count:\n            data, context = lena.flow.get_data_context(value)", ["C20-g"]),
     M("all-lists-missing-name", "lena/flow/__init__.py", "'Cache',", "'Cache', 'CacheX',", ["C20-a"]),
     M("unbound-exception-name", "lena/flow/filter.py", "lena.core.LenaTypeError", "LenaTypeErrorr", ["C20-b"]),
     M("typo-in-chain", "lena/flow/iterators.py", "lena.core.LenaStopFill", "lena.core.LenaStopFil", ["C20-c"]),
